@@ -398,14 +398,15 @@ def tla_op(o):
     return "[k |-> %s, p |-> %s, q |-> %s, x |-> %d]" % (tla_str(o["k"]), tla_path(o["p"]), tla_path(o["q"]), o["x"])
 
 
-def write_mc_module(progs, groups, name="MCTestCaseGen", extends="TestCaseGen"):
+def write_data_module(progs, groups):
+    """TestCaseGenData.tla for this run (overrides the placeholder in spec/ inside TLC's working directory)."""
     d = tlc.mkscratch("c24mc")
-    path = os.path.join(d, name + ".tla")
+    path = os.path.join(d, "TestCaseGenData.tla")
     with open(path, "w") as f:
-        f.write("---- MODULE %s ----\n(* generated by harness/drivers/c24.py from strace logs of the real worker commands *)\nEXTENDS %s\n" % (name, extends))
-        f.write("MCProg == <<\n")
+        f.write("---- MODULE TestCaseGenData ----\n(* generated by harness/drivers/c24.py from strace logs of the real worker commands *)\n")
+        f.write("Prog == <<\n")
         f.write(",\n".join("  <<" + ",\n    ".join(tla_op(o) for o in ops) + ">>" for ops in progs))
-        f.write("\n>>\nMCGroupSeq == <<" + ", ".join("<<" + ", ".join(str(w) for w in g) + ">>" for g in groups) + ">>\n====\n")
+        f.write("\n>>\nGroupSeq == <<" + ", ".join("<<" + ", ".join(str(w) for w in g) + ">>" for g in groups) + ">>\n====\n")
     return path
 
 
